@@ -353,7 +353,8 @@ def digest(obs, pool, real_only=False):
         canon = sorted(
             [rr(l["p"]), l["own"],
              sorted([k, rr(ls[i - 1]["p"])] for k, i in l["fwd"] if isreal(i)),
-             sorted([k, sorted(rr(ls[i - 1]["p"]) for i in ids if isreal(i))] for k, ids in l["br"])]
+             sorted([k, sorted(rr(ls[i - 1]["p"]) for i in ids if isreal(i))] for k, ids in l["br"]
+                    if any(isreal(i) for i in ids))]
             for l in ls if not l["virt"])
         blob = json.dumps([obs["version"], obs["qlen"], obs["hdr"], canon], sort_keys=True)
         return hashlib.md5(blob.encode()).hexdigest()[:12]
